@@ -474,17 +474,25 @@ def evaluate(cases, stats=None):
         if d[0]:
             # interaction columns: judged as columns of the explicit value tuples; the implementation's cells (xxh64 digests)
             # are translated back through the tabulated digests (a cell that is no such digest stays as it is and disagrees)
-            cases_eff[i] = dict(c, cols=list(c["cols"]) + d[0], rows=d[1])
             inv = {hx: s for s, hx in results[i].get("xx64", [])}
+            # ... unless the cells are not digests of the length-prefixed tuples at all (another encoding / hash — not C13's
+            # business): then the interaction columns are compared anonymously (cardinality, histogram, multiset of rare counts)
+            unknown = any(kk[0] in d[0] and kk[1][0] == "s" and kk[1][1] not in inv
+                          for h in results[i]["histories"] if h.get("ok") for kk in h["rare"]) or \
+                any(kv[0][0] == "s" and kv[0][1] not in inv for h in results[i]["histories"] if h.get("ok")
+                    for cc in d[0] for kv in (h["counter"].get(cc) or []))
+            cases_eff[i] = dict(c, cols=list(c["cols"]) + d[0], rows=d[1], anon=(d[0] if unknown else []))
+            if unknown:
+                inv = {}
 
             def tr(col, e):
-                return ["s", inv.get(e[1], "?" + e[1])] if (col in d[0] and e[0] == "s") else e
+                return ["s", inv.get(e[1], e[1])] if (col in d[0] and e[0] == "s") else e
             hs = []
             for h in results[i]["histories"]:
                 if h.get("ok"):
                     rf = h.get("rare_file")
                     if rf:
-                        rf = dict(rf, rows=[[x[0], inv.get(x[1], "?" + x[1]) if x[0] in d[0] else x[1]] + list(x[2:]) for x in rf["rows"]])
+                        rf = dict(rf, rows=[[x[0], inv.get(x[1], x[1]) if x[0] in d[0] else x[1]] + list(x[2:]) for x in rf["rows"]])
                     h = dict(h, rare=[[kk[0], tr(kk[0], kk[1]), kk[2]] for kk in h["rare"]], rare_file=rf,
                              counter={cc: (None if v is None else [[tr(cc, kv[0]), kv[1]] for kv in v]) for cc, v in h["counter"].items()})
                 hs.append(h)
@@ -578,6 +586,9 @@ def compare_case(case, r, v, meta, probs, info):
                 writer_ran=0, empty_report=0, none_table=0, none_split_dependent=0, none_pipeline_table=0)
     # columns holding a None cell: the frame content (nan / None) depends on the batch, C13_none_cells_refuted — the
     # specification of the concatenation and split independence are claimed for None-free columns (string keys for the rare table)
+    anon = set(case.get("anon") or [])
+    info["interaction_tables"] = 1 if int(case.get("interaction_order") or 1) > 1 else 0
+    info["interaction_tables_compared_anonymously"] = 1 if anon else 0
     colnone = [(not is_pipeline(case)) and any(row[j] is None for row in case["rows"]) for j in range(len(cols))]
     tablenone = any(colnone)
     info["none_table"] = 1 if tablenone else 0
@@ -607,6 +618,8 @@ def compare_case(case, r, v, meta, probs, info):
                                           scard, "C13_card_split_indep_cold")):
                 if what.startswith("spec") and not claim:
                     continue
+                if c in anon and tag == 1:
+                    continue          # registers depend on the cells' representation
                 if tag == 0:
                     if sk["cold"] or icard != val:
                         add("cardinality while warm = number of distinct hashes of the truthy cells (%s)" % what, obl, [k],
@@ -654,9 +667,9 @@ def compare_case(case, r, v, meta, probs, info):
                     add("C13_coverage_annotation: int(round(mean of batch percentages, 1))", "C13_coverage_annotation", [k],
                         dict(column=c, annotation=iann, batch_coverages=icov), dict(annotation=mann, mean=str(mean)))
         # rare values
-        irare = sorted(((idx[kk[0]], tuple(kk[1]), kk[2]) for kk in h["rare"]), key=repr)
-        mr = sorted(((e[0], val_dec(e[1]), e[2]) for e in mrare), key=repr)
-        if irare != mr or (not vrare and not tablenone):
+        irare = sorted(((idx[kk[0]], ("anon",) if kk[0] in anon else tuple(kk[1]), kk[2]) for kk in h["rare"]), key=repr)
+        mr = sorted(((e[0], ("anon",) if cols[e[0]] in anon else val_dec(e[1]), e[2]) for e in mrare), key=repr)
+        if irare != mr or (not vrare and not tablenone and not anon):
             add("C13_rare_spec: report = {((col, v), total) | 1 <= total <= thr}", "C13_rare_spec", [k],
                 dict(rare=h["rare"], ignored=h["ignored"]), [[cols[a], list(b), c_] for a, b, c_ in mr])
         if h["rare"]:
@@ -664,12 +677,12 @@ def compare_case(case, r, v, meta, probs, info):
                 add("rare_values.tsv is written", "correspondence:rare_values.tsv", [k], h["rare_writer_error"], None)
             else:
                 info["writer_ran"] += 1
-                frows = sorted(tuple(x) for x in h["rare_file"]["rows"])
+                frows = sorted(tuple(x) for x in h["rare_file"]["rows"] if x[0] not in anon)
                 if any(kk[1][0] == "num" for kk in h["rare"]):
                     # numbers of the enriched frame: pandas formats a mixed value column (3 / 3.0 next to nan) its own way
                     frows = None
                     info["writer_numeric_skipped"] = info.get("writer_numeric_skipped", 0) + 1
-                want = sorted((kk[0], kk[1][1] if kk[1][0] in ("s", "num") else "", str(kk[2])) for kk in h["rare"])
+                want = sorted((kk[0], kk[1][1] if kk[1][0] in ("s", "num") else "", str(kk[2])) for kk in h["rare"] if kk[0] not in anon)
                 if frows is not None and frows != want:
                     add("rare_values.tsv holds exactly the (feature, value, count) entries of the report",
                         "correspondence:rare_values.tsv", [k], h["rare_file"], want)
@@ -829,7 +842,8 @@ def check(run, replay):
     hist = {"family": {}, "rows": {}, "ncols": {}, "batches_per_history": {}, "thr": {}, "small_bound": 0, "via_batch_ranking": 0,
             "histories": 0, "histories_with_reentry_of_a_retired_pair": 0}
     agg = dict(cold=0, ties=0, beyond_bound=0, beyond_bound_model_agrees=0, writer_late_errors=0, writer_ran=0, empty_report=0,
-               none_table=0, none_split_dependent=0, none_pipeline_table=0)
+               none_table=0, none_split_dependent=0, none_pipeline_table=0, interaction_tables=0,
+               interaction_tables_compared_anonymously=0)
     collisions = 0
 
     def bump(d, k):
@@ -929,6 +943,10 @@ def check(run, replay):
     run.cov["empty_reports_writer_not_called"] = agg["empty_report"]
     run.cov["writer_errors_after_rare_values_tsv_was_written"] = agg["writer_late_errors"]
     run.cov["tables_with_a_hash_collision"] = collisions
+    run.cov["tables_with_interaction_columns_judged"] = agg["interaction_tables"]
+    run.cov["  of_which_compared_anonymously_cells_are_not_digests_of_the_length_prefixed_tuples"] = agg["interaction_tables_compared_anonymously"]
+    run.cov["tables_with_declared_numeric_columns"] = sum(1 for c in cases if c.get("numeric"))
+    run.cov["  of_which_with_a_transformer_preset"] = sum(1 for c in cases if c.get("numeric") and c.get("transformers") == "minimal")
     run.cov["tables_with_None_cells_through_the_pipeline_spec_and_split_independence_asserted"] = agg["none_pipeline_table"]
     run.cov["tables_with_None_cells_direct_calls"] = agg["none_table"]
     run.cov["  of_which_statistics_differ_between_compositions_as_C13_none_cells_refuted_predicts"] = agg["none_split_dependent"]
